@@ -14,7 +14,9 @@ PLAIN_NAMES = ["a", "b", "c", "d"]
 NASTY_NAMES = ["", "0", "1", "-1", "a b", "'", '"', "\\", "a'b", "/", "\n", "\t", "\u0001", "\u001f",
                "\u007f", "é", "￿", "😀", "$", "@", "*", "a.b", "[0]", "true", "null", "_x", "A", "ab", "😀x", "a😀b", "😀😀", "😀\n", "\u0080", "\u009f", "a\x7fb",
                # names whose CONTENT looks like quoting or escaping: backslash next to either quote, text that reads like an escape
-               '\\"', '"\\', "\\'", "'\\", 'a\\"b', "\\\\", '\\"\\', "'\"", "\"'", "\\n", "\\u0041", "\\/", "\"\"", "''", "\\\"'"]
+               '\\"', '"\\', "\\'", "'\\", 'a\\"b', "\\\\", '\\"\\', "'\"", "\"'", "\\n", "\\u0041", "\\/", "\"\"", "''", "\\\"'",
+               # plain names whose LAST or FIRST character alone needs an escape (anchored fast paths)
+               "a\n", "total\n", "x y\r", "\nab", "ab'", "ab\\", "a\u0000", "\tb"]
 # documents that are STRINGS whose content happens to be JSON text: they are strings, never decoded
 JSON_TEXT_STRINGS = ["1", "true", "null", "[1, 2]", '{"a": 1}', '"q"', "[1,", " 1", "1.5", "[]", "{}", "[[1]]", '{"a": {"a": [0]}}']
 SCALARS: List[Any] = [0, 1, -1, 2, 10, 1.5, -0.0, 1.0, 0.1, "", "a", "b", "ab", "0", "é", "😀", True, False, None,
